@@ -3,8 +3,11 @@
 Proof      : coq/Props/C17.v over coq/Model/Path.v (symlink file-system model, CPython's non-strict
              realpath incl. its give-up-on-a-loop branch, commonpath, relpath, the repaired resolver
              canonical_path/_resolve_path, _get_arrow_path, list_files, the kernel's own path walk) and
-             coq/Gen/GenPath.v (the guard structure of the anchored functions, regenerated from the source).
-Tie        : translator/gen_path.py (fail-closed golden shapes + regenerated constants) and differential
+             coq/Gen/GenPath.v (the guard structure of the anchored functions and the STATE of a handle -- attributes, stores
+             outside __init__, attributes the guards read -- regenerated from the source); sessions in which the names a listing
+             handed out come back in (Proofs/SessionProofs.v), handle state fixed at construction (Proofs/HandleState.v).
+Tie        : translator/gen_path.py (fail-closed golden shapes + regenerated constants + handle-state tables; a decorator or
+             global / nonlocal in a guard, setattr / __dict__ on self fail closed) and differential
              correspondence on trees materialised with real symlinks:
                resolve   LocalStorageBackend._resolve_path      vs Model/Path.v resolve
                arrow     DataFileManager._get_arrow_path        vs arrow_path
@@ -28,6 +31,17 @@ search       point x the grammar under sys.addaudithook; kernel-judged locations
              directory), and the same handle uses the string again; every use is judged against the arrangement
              current at that use (pathaudit.run_history), and differentially against the stateless model
              (hist-resolve / hist-arrow / hist-listing).
+             SESSIONS: operation SEQUENCES on ONE long-lived LocalStorageBackend / DataFileManager / Table handle over a STATIC
+             arrangement (pathfs.filelink_spec: FILE symlinks -- outward absolute / relative / to the sibling-prefix directory /
+             through a second link / dangling, and inward controls -- in every directory a table operation lists: data/, a partition
+             directory, metadata/, metadata/manifests/, metadata/inflight/, the root).  The handle first lists a prefix / probes /
+             reads / collects garbage (grace 0 and default) / refreshes (with and without the version hint) / scans, then every
+             entry point is called with EVERY NAME A LISTING OF THE ROOT CAN HAND OUT (os.walk reports a link to a file among the
+             files), table-relative, Iceberg-style and absolute; on a Table each name is registered with append_files + commit and
+             scanned.  Every step is judged on its own by the kernel (touch / sentinel / reject / listed); a failing step is shrunk to
+             [that step] / [head, that step] / the prefix.  Differentially: Model/Path.v run_session (its own listing feeds its later
+             steps, SListed i k) vs one backend + one DataFileManager object listing and then resolving every returned name (sessions),
+             and the resolver / arrow / listing / realpath / kernel / scans correspondences on the file-link tree (*-filelink).
              OBJECT STORE: S3StorageBackend over an in-memory client (harness/lib/mems3.py), 5 prefix configurations
              (two-level, trailing slash, one level, three levels, none), conditional writes on / off, 17 entry points
              x the path grammar ('..', '.', '', absolute, sibling-prefix names): every request key / listing Prefix
@@ -63,6 +77,13 @@ THEOREMS = [
     "C17_entrypoints",
     "C17_history_inside",
     "C17_history_stateless",
+    "C17_session_stateless",
+    "C17_session_inside",
+    "C17_session_listed_name_rejected",
+    "C17_listed_name_rejected",
+    "C17_session_of_literals_is_history",
+    "C17_handle_state_fixed_at_construction",
+    "C17_memoising_handle_refuted",
     "C17_s3_key_under_prefix",
     "C17_s3_list_prefix_under_prefix",
     "C17_fuel_sufficient",
@@ -84,22 +105,31 @@ MANIFEST_ENTRY = {
                   "directories at or below it -- never through a directory link, inward or outward (C17_listing_scans_inside); every entry point of the table "
                   "regenerated from the source hands the OS only its guard's result or that result's parent (C17_entrypoints), also at "
                   "every step of a history in which the arrangement changes between uses of one handle -- a handle carries no "
-                  "validated-path state (C17_history_inside, C17_history_stateless); on the object-store backend every request key and "
+                  "validated-path state (C17_history_inside, C17_history_stateless); in every SESSION on one handle, where the string of a "
+                  "step may be a name an earlier listing of the same handle returned (file symlinks are listed among the files), the "
+                  "outcome of a step is run_entry of its own tree on the string denoted and nothing else of the past (C17_session_stateless, "
+                  "C17_session_of_literals_is_history), every returning step stays inside (C17_session_inside) and a listed name that the "
+                  "kernel walks out of the root is Err Security for every entry point (C17_session_listed_name_rejected, "
+                  "C17_listed_name_rejected); the model's handle is its base string because, over tables regenerated from the source, no "
+                  "attribute a path guard reads is stored into after construction (C17_handle_state_fixed_at_construction); a handle that "
+                  "remembers listed names is refuted by a concrete tree (C17_memoising_handle_refuted); on the object-store backend every request key and "
                   "listing Prefix is the configured prefix + '/' + the path's bytes verbatim, hence under the table prefix, for every "
                   "string (C17_s3_key_under_prefix, C17_s3_list_prefix_under_prefix, over Gen/GenS3.v regenerated from the source); "
                   "commonpath containment is component-wise prefix (C17_commonpath_prefix); fuel = number of links suffices "
                   "(C17_fuel_sufficient); the resolver as found is refuted by a concrete tree (C17_legacy_resolver_refuted). Model tied "
                   "to the code by golden-shape / taint translation of the guards and by differential execution against real symlink "
                   "trees (resolver, arrow path, listing, realpath, kernel, entry points) over the exhaustive path grammar; "
-                  "implementation-only OS-call audit of 30 entry points over two arrangements (one with symlink cycles, one cycle-free with "
-                  "outward directory links below the listed prefixes) searches for a failing input; every library call is bounded (time, "
+                  "implementation-only OS-call audit of 30 entry points over three arrangements (one with symlink cycles, one cycle-free with "
+                  "outward directory links below the listed prefixes, one with file symlinks in every listed directory), single calls, "
+                  "histories with an arrangement change between two uses, and operation sequences on one long-lived storage / "
+                  "DataFileManager / Table handle that re-use the names a listing hands out, searches for a failing input; every library call is bounded (time, "
                   "memory, hard limit, external monitor) so that a non-terminating change is reported as a violation with its input",
     "level_note": "trusted: Coq kernel; translator/gen_path.py; the model of posixpath.realpath/commonpath/relpath and of the kernel "
                   "walk (validated on every run against CPython 3.12 and the running kernel); the audit harness (sys.addaudithook sees "
                   "Python-level OS calls only); not modelled: time-of-check/time-of-use races, hard links, mount points, the S3 "
                   "backend (C20). Two defects found and repaired on the library branch: realpath's give-up result on a symlink loop "
                   "trusted by the resolver (escape), and temp files staged next to the root when writing at the root itself",
-    "technique": "Coq proof over a symlink file-system model + golden-shape/taint translation + differential correspondence + OS-call audit",
+    "technique": "Coq proof over a symlink file-system model (single calls, histories, sessions with listing feedback) + golden-shape/taint/handle-state translation + differential correspondence + OS-call audit of calls, histories and operation sequences",
     "design_ref": "DESIGN.md section 5 C17",
 }
 
@@ -154,7 +184,10 @@ def report(ctx, problems: List[Dict[str, Any]]) -> None:
         }[pr["rule"]].format(**{"touched": None, "changed": None, "result": None, "foreign": None, "why": None,
                                 "os_calls_before_the_limit": None, "arrangement": "standard_spec", **pr})
         if pr.get("history"):
-            what = ("after the history [" + " ; ".join(" ".join(st) for st in pr["history"]["steps"][:pr.get("step", 0)]) +
+            before = [" ".join(st) for st in pr["history"]["steps"][:pr.get("step", 0)]]
+            if len(before) > 6:
+                before = before[:3] + [f"... {len(before) - 5} more steps ..."] + before[-2:]
+            what = ("after the history [" + " ; ".join(before) +
                     f"] on ONE long-lived {pr['history']['handle']} handle: " + what)
         ctx.violation(key, what, pr)
 
@@ -400,6 +433,7 @@ def table_call(wsp: pathaudit.Workspace, base: str, entry: str, p: str) -> Calla
         if entry == "append_files":
             t = load_table(base)
             tx = t.new_transaction()
+            tx.begin()                 # (without it append_files raises "Transaction is not active" before it looks at the path)
             try:
                 tx.append_files([DataFile(file_path=p, file_format=FileFormat.PARQUET, partition_values={}, record_count=1, file_size_in_bytes=1)])
                 return tx.commit()
@@ -409,6 +443,7 @@ def table_call(wsp: pathaudit.Workspace, base: str, entry: str, p: str) -> Calla
         if entry == "delete_files+rollback":
             t = load_table(base)
             tx = t.new_transaction()
+            tx.begin()                 # rollback() of a transaction that was never begun returns False without touching anything
             tx._written_files.append(p)            # what rollback cleans up: paths the transaction recorded
             return tx.rollback()
         raise ValueError(entry)
@@ -534,6 +569,130 @@ def oracle_history(ctx) -> None:
         shutil.rmtree(w.ws, ignore_errors=True)
 
 
+# ------------------------------------------------------------------------------------------ oracle: sessions
+# Operation SEQUENCES on one long-lived handle over a STATIC arrangement: the steps use DIFFERENT strings, and the strings of the
+# later steps are the names a listing of the root hands out (files AND file symlinks: os.walk reports a link to a file among a
+# directory's files).  A handle that remembers anything about a name it has listed / probed / read before -- and then skips the
+# boundary check for it -- is judged here: every step is judged on its own, by the kernel, exactly like a single call.
+READ_ONLY_ENTRIES = ["exists", "read_file", "open_file", "open_seekable", "get_size", "get_modified_time", "read_json", "list_files"]
+MUTATING_ENTRIES = ["create_lock", "write_file", "write_json", "makedirs", "delete_file"]
+SESSION_PREFIXES = ["", "data", "/data", "metadata", "data/part", "metadata/inflight", "metadata/manifests", "."]
+
+
+def session_heads(kind: str, tier: str) -> List[List[List[str]]]:
+    """What the handle does FIRST (the part of a session that could leave something behind in the object)."""
+    quick = tier == "quick"
+    if kind == "storage":
+        pre = SESSION_PREFIXES[:5] if quick else SESSION_PREFIXES
+        heads = [[["call", "list_files", q]] for q in pre]
+        heads += [[["call", "read_file", "data/f.parquet"]], [["call", "exists", "data/ln_inside"]]]
+        if not quick:
+            heads += [[["call", e, "data/ln_file"]] for e in ("exists", "read_file", "get_size")] + \
+                     [[["call", "list_files", "data"], ["call", "list_files", ""]], [["call", "write_file", "data/new.parquet"], ["call", "list_files", "data"]]]
+        return heads
+    if kind == "dfm":
+        pre = ["", "data", "data/part"] if quick else SESSION_PREFIXES
+        return [[["call", "storage.list_files", q]] for q in pre] + [[["call", "storage.exists", "data/ln_inside"]], [["call", "read_data_file", "data/ln_inside"]]]
+    heads = [[["call", "garbage_collect", "-"]], [["call", "garbage_collect_default", "-"]], [["call", "refresh", "-"]], [["call", "scan_noverify", "-"]],
+             [["call", "storage.list_files", "data"]], [["call", "storage.list_files", ""]],
+             [["mutate", "remove:metadata/version-hint.text"], ["call", "refresh", "-"]]]
+    if not quick:
+        heads += [[["call", "append_records", "-"]], [["call", "row_count", "-"]], [["call", "garbage_collect_default", "-"], ["call", "garbage_collect", "-"]]]
+    return heads
+
+
+def session_tail(kind: str, tier: str, wsp: pathaudit.Workspace) -> List[List[str]]:
+    """Every entry point x every name a listing of this root can hand out (harness's own enumeration, no library code)."""
+    quick = tier == "quick"
+    names = pathfs.entries_below(wsp.root)
+    links = [n for n in names if os.path.islink(os.path.join(wsp.root, n))]
+    if kind == "storage":
+        strs = names + ["/" + n for n in (links[:4] if quick else links)]
+        return [["call", e, n] for e in READ_ONLY_ENTRIES for n in strs] + [["call", e, n] for e in MUTATING_ENTRIES for n in strs]
+    if kind == "dfm":
+        strs = names + ["/" + n for n in links[:4]] + ["<ws>/wh/" + pathfs.ROOT_NAME + "/" + n for n in links] + ["<ws>/wh/lnroot/" + n for n in links[:4]]
+        return [["call", e, n] for e in ("open_parquet_source", "read_data_file", "write_data_file") for n in strs]
+    # table: register each listed name as a pre-built data file, read in between, collect at the end
+    own = [n for n in names if n.startswith("data/") and n not in links][:2]
+    tail: List[List[str]] = []
+    for n in links + own + ["/" + n for n in links[:3]] + ["<ws>/wh/" + pathfs.ROOT_NAME + "/" + n for n in links[:3]]:
+        tail.append(["call", "append_files", n])
+        tail.append(["call", "scan_noverify", "-"])
+    tail += [["call", e, "-"] for e in (["scan", "row_count", "garbage_collect"] if quick else list(pathaudit.table_ops()))]
+    return tail
+
+
+def shrink_session(wsp, judge, audit, kind: str, base_kind: str, steps: List[List[str]], head_len: int, i: int, rules: set,
+                   fallback: List[Dict[str, Any]]) -> List[Dict[str, Any]]:
+    """Step i failed: that step alone (then the failure does not depend on the history), else head + that step, else the whole prefix."""
+    cands: List[List[List[str]]] = []
+    if i > 0:
+        cands.append([steps[i]])
+    if head_len < i:
+        cands.append(steps[:head_len] + [steps[i]])
+    cands.append(steps[:i + 1])
+    for cand in cands:
+        _outs, prs = pathaudit.run_history(wsp, judge, audit, kind, base_kind, cand)
+        prs = [pr for pr in prs if pr["step"] == len(cand) - 1 and pr["rule"] in rules]
+        if prs:
+            for pr in prs:
+                pr["shrunk_from_steps"] = i + 1
+            return prs
+    return fallback
+
+
+def oracle_sessions(ctx) -> None:
+    audit = Audit.get()
+    brk = Breaker(limit=3)
+    outcomes: collections.Counter = collections.Counter()
+    n_sessions = n_calls = suppressed = 0
+    reported: set = set()
+    sample = None
+    for kind in ("storage", "dfm", "table"):
+        wsp = pathaudit.session_workspace(os.path.join(ctx.scratch, "ws-session-" + kind), with_table=(kind == "table"))
+        judge = pathaudit.Judge(wsp)
+        tail = session_tail(kind, ctx.tier, wsp)
+        for base_kind in ("direct", "symlink"):
+            for head in session_heads(kind, ctx.tier):
+                label = f"session:{kind}"
+                if brk.tripped(label):
+                    continue
+                steps = [list(st) for st in head] + [list(st) for st in tail]
+                outs, problems = pathaudit.run_history(wsp, judge, audit, kind, base_kind, steps)
+                for o in outs:
+                    brk.note(label, o)
+                n_sessions += 1
+                calls = [st for st in steps if st[0] == "call"]
+                n_calls += len(calls)
+                ctx.count(len(calls), ("session", kind, base_kind, repr(head)))
+                for st, o in zip(steps, outs):
+                    if st[0] == "call":
+                        outcomes[f"{kind}:{st[1]}:{o}"] += 1
+                if sample is None:
+                    sample = {"session_case": {"handle": kind, "base": base_kind, "arrangement": "filelink_spec", "steps": steps[:len(head) + 3] + [["..."]]}}
+                # one report per (rule, entry point): the earliest failing step of that kind, shrunk
+                for pr in sorted(problems, key=lambda q: q["step"]):
+                    key = (pr["rule"], pr["entry"])
+                    if key in reported:
+                        suppressed += 1
+                        continue
+                    reported.add(key)
+                    same = [q for q in problems if q["step"] == pr["step"] and q["entry"] == pr["entry"]]
+                    for q in same:
+                        reported.add((q["rule"], q["entry"]))
+                    out = shrink_session(wsp, judge, audit, kind, base_kind, steps, len(head), pr["step"], {q["rule"] for q in same}, same)
+                    for q in out:
+                        q["history"]["arrangement"] = "filelink_spec"
+                    report(ctx, out)
+        shutil.rmtree(wsp.ws, ignore_errors=True)
+    ctx.stats["session_count"] = n_sessions
+    ctx.stats["session_calls"] = n_calls
+    ctx.stats["session_problems_not_reported_again"] = suppressed
+    ctx.stats["session_outcomes"] = dict(sorted(outcomes.items()))
+    if sample:
+        ctx.sample(sample)
+
+
 def corr_history(ctx) -> None:
     """Statelessness, differentially: ONE LocalStorageBackend / DataFileManager per (change, root spelling) resolves every string
     under the first arrangement, the arrangement is changed, the SAME objects resolve every string again; both passes must equal the
@@ -590,6 +749,96 @@ def corr_history(ctx) -> None:
         ctx.correspondence(n, len(meta), bad[n])
     ctx.stats["corr_history_cases"] = len(meta)
     shutil.rmtree(top, ignore_errors=True)
+
+
+def corr_sessions(ctx) -> None:
+    """Model/Path.v run_session vs ONE long-lived LocalStorageBackend + DataFileManager per (prefix, root spelling) on the file-link
+    arrangement: the objects list the prefix, then resolve EVERY NAME THE LISTING RETURNED (through _resolve_path and through
+    _get_arrow_path, same objects).  The model runs the session [list prefix; read (SListed 0 k); parquet-source (SListed 0 k) ...] --
+    its own listing feeds its own later steps -- and both sides must agree name by name: the names handed out, and for each name the
+    location answered or the Security refusal."""
+    from datashard.storage_backend import LocalStorageBackend
+    ws = os.path.realpath(tempfile.mkdtemp(prefix="ws-corr-sess-", dir=ctx.scratch))
+    spec = pathfs.filelink_spec(ws)
+    pathfs.materialise(ws, spec)
+    root = os.path.join(ws, "wh", pathfs.ROOT_NAME)
+    wh = os.path.join(ws, "wh")
+    codes = Codes()
+    tree = pathfs.spec_to_coq(ws, spec, codes)
+    nmax = len(pathfs.entries_below(root)) + 2              # more references than names: the surplus ones must execute nothing
+    prefixes = SESSION_PREFIXES + ["data/ln_file", "data/ext", "metadata/../data", "nowhere"]
+    calls = ImplCalls(ctx, "filelink_spec", ws)
+    exprs: List[str] = []
+    impl: List[Any] = []
+    meta: List[Dict[str, Any]] = []
+    old_cwd = os.getcwd()
+    try:
+        for bk, base, cwd in (("direct", root, wh), ("symlink", os.path.join(wh, "lnroot"), wh), ("relative", pathfs.ROOT_NAME, wh)):
+            os.chdir(cwd)
+            for pre in prefixes:
+                b = LocalStorageBackend(base)                # ONE backend object for the whole session
+                dfm = pathaudit.make_dfm(base)
+                dfm.storage = b
+                dfm.file_manager.storage = b
+                listed, _sc = calls.listing(bk, b, codes, pre)
+                per_name: Dict[Tuple[int, ...], Tuple[Any, Any]] = {}
+                if isinstance(listed, C) and listed.name == "Ok":
+                    for r in listed.args[0]:
+                        rs = codes.unpstr(r)
+                        per_name[tuple(r)] = (calls.resolve("_resolve_path", bk, b._resolve_path, codes, rs), calls.resolve("_get_arrow_path", bk, dfm._get_arrow_path, codes, rs))
+                impl.append((listed, per_name))
+                steps = [f"(T, EpList, SLit {coq_list(codes.pstr(pre))})"]
+                for k in range(nmax):
+                    steps += [f"(T, EpRead, SListed 0 {k})", f"(T, EpParquetSource, SListed 0 {k})"]
+                exprs.append(f"run_session {FUEL} {KFUEL} {coq_list(codes.loc(cwd))} gen_table_dirs {coq_list(codes.pstr(base))} [{'; '.join(steps)}]")
+                meta.append({"base": bk, "prefix": pre})
+    finally:
+        os.chdir(old_cwd)
+    got = coqbuild.coq_eval(REQ, exprs, preamble=f"Definition T : tree := {tree}.", chunk=12)
+    bad: List[Any] = []
+    n_names = 0
+
+    def acc_of(o: Any) -> Any:
+        """Some (Ok [(ARead, q)]) -> Ok q ; Some (Err e) -> Err e ; None -> None"""
+        if o is None or (isinstance(o, C) and o.name == "None"):
+            return None
+        v = o.x if hasattr(o, "x") else (o.args[0] if isinstance(o, C) and o.name == "Some" else o)
+        if isinstance(v, C) and v.name == "Ok":
+            return C("Ok", list(v.args[0][0][1]))
+        return v
+
+    for m, (listed, per_name), g in zip(meta, impl, got):
+        ctx.count(1, ("corr-session", m["base"], m["prefix"]))
+        if isinstance(listed, tuple) and len(listed) == 3 and listed[1] == "skipped":
+            continue
+        first = g[0]
+        model_list = acc_of(first[0])
+        names = [list(n) for n in first[1]]
+        if isinstance(listed, C) and listed.name == "Ok":
+            if sorted(names) != listed.args[0] or not (isinstance(model_list, C) and model_list.name == "Ok"):
+                bad.append({**m, "what": "names handed out", "impl": repr(listed)[:300], "model": repr(first)[:300]})
+                continue
+        else:
+            if model_list != listed or names:
+                bad.append({**m, "what": "listing outcome", "impl": repr(listed)[:300], "model": repr(first)[:300]})
+            # no names: every later step must have executed nothing
+        for k in range(nmax):
+            o_read, o_arrow = g[1 + 2 * k], g[2 + 2 * k]
+            if k >= len(names):
+                if acc_of(o_read[0]) is not None or acc_of(o_arrow[0]) is not None:
+                    bad.append({**m, "what": f"reference {k} beyond the {len(names)} names executed", "model": repr(o_read)[:200]})
+                continue
+            n_names += 1
+            iv = per_name.get(tuple(names[k]))
+            mv = (acc_of(o_read[0]), acc_of(o_arrow[0]))
+            if iv is None or any(isinstance(x, tuple) and len(x) == 3 and x[1] == "skipped" for x in iv):
+                continue
+            if mv != iv:
+                bad.append({**m, "what": "use of listed name " + codes.unpstr(names[k]), "impl": repr(iv)[:300], "model": repr(mv)[:300]})
+    ctx.correspondence("sessions", len(meta), bad)
+    ctx.stats["corr_session_listed_names_used"] = n_names
+    ctx.sample({"corr_session": {"base": meta[0]["base"], "prefix": meta[0]["prefix"], "model": repr(got[0])[:300]}})
+    shutil.rmtree(ws, ignore_errors=True)
 
 
 # ------------------------------------------------------------------------------------------ oracle: the object-store backend
@@ -994,6 +1243,12 @@ def corr_paths(ctx, strings: Sequence[str], arrangement: str = "standard") -> No
              "ln_loop//" + ws.lstrip("/") + "/wh/tbl/x"]
         bases = [("direct", root, wh), ("symlink", os.path.join(wh, "lnroot"), wh), ("relative", pathfs.ROOT_NAME, wh),
                  ("relative-link-slash", "lnroot/", wh), ("dotdot", root + "/data/..", ws), ("via-loop", root + "/ln_loop/../ln_up/" + pathfs.ROOT_NAME, ws)]
+    elif arrangement == "filelink":
+        spec = pathfs.filelink_spec(ws)
+        extra = ["", ".", "/", root, root + "/data/ln_file", root + "/data/ln_inside", ws + "/out/secret.txt", "data/part/ln_deep", "data/imported.parquet",
+                 "/data/imported.parquet", "data/ln_sib", "metadata/ln_meta.json", "metadata/inflight", "metadata/inflight/ln_marker.inflight",
+                 "metadata/manifests/ln_manifest.avro", "data/ln_chain/x", "data/ln_file/..", "data/ln_dangling/new.bin"]
+        bases = [("direct", root, wh), ("symlink", os.path.join(wh, "lnroot"), wh), ("relative", pathfs.ROOT_NAME, wh)]
     else:
         spec = pathfs.acyclic_spec(ws)
         extra = ["", ".", "/", root, root + "/data", root + "/data/ext", ws + "/out", ws + "/out/nested/deeper.bin", "data/part/deep/deeper.bin",
@@ -1169,9 +1424,13 @@ def run(ctx) -> None:
                 "distinct by (arrangement, entry point, root spelling, string); histories: (handle kind) x (first-use entry point) x "
                 "(6 arrangement changes) x (second-use entry point) x affected strings x root spelling on ONE long-lived handle, plus "
                 "change / change-again sequences; object store: 5 key-prefix configurations x conditional writes on/off x 17 entry points x "
-                "the path grammar over an in-memory bucket holding sibling-prefix, ancestor-level and bucket-root objects")
+                "the path grammar over an in-memory bucket holding sibling-prefix, ancestor-level and bucket-root objects; sessions: (handle kind) x "
+                "(root spelling) x (what the handle does first: list one of 5-8 prefixes / probe / read / collect / refresh / scan) x (every entry "
+                "point) x (every file and link name below the root of the file-link arrangement, relative / Iceberg-style / absolute) on ONE handle, "
+                "distinct by (handle kind, root spelling, head)")
     ctx.trusted_base += [
-        "translator/gen_path.py (golden AST shapes of canonical_path, _resolve_path, _get_arrow_path, list_files' guard, write guards; regenerated constants)",
+        "translator/gen_path.py (golden AST shapes of canonical_path, _resolve_path, _get_arrow_path, list_files' guard, write guards; regenerated constants; "
+        "the handle-state tables: attribute stores are recognised syntactically -- assignment, item assignment / deletion, a fixed list of mutating method names)",
         "Model/Path.v's rendering of CPython 3.12 posixpath.realpath/_joinrealpath/commonpath/relpath/join and of the kernel path walk "
         "(validated on every run against os.path.realpath and O_PATH+/proc/self/fd on real symlink trees)",
         "harness: harness/props/c17.py, harness/lib/pathfs.py, harness/lib/pathaudit.py (sys.addaudithook sees Python-level OS calls; "
@@ -1208,6 +1467,7 @@ def run(ctx) -> None:
     staged('audit_acyclic', lambda: oracle_acyclic(ctx, 2 if quick else 3))
     staged('audit_table', lambda: oracle_table(ctx, table_strings))
     staged('audit_history', lambda: oracle_history(ctx))
+    staged('audit_sessions', lambda: oracle_sessions(ctx))
     staged('audit_s3', lambda: oracle_s3(ctx))
     staged('strace', lambda: oracle_strace(ctx))
     ctx.stats["audit_strings_storage"] = len(audit_strings)
@@ -1217,7 +1477,12 @@ def run(ctx) -> None:
         corr_strings = pathfs.grammar(3) if quick else pathfs.grammar(4)
         staged('corr_standard', lambda: corr_paths(ctx, corr_strings))
         staged('corr_acyclic', lambda: corr_paths(ctx, pathfs.grammar(2 if quick else 3, pathfs.ACYCLIC_COMPONENTS), arrangement="acyclic"))
+        fl_strings = pathfs.grammar(2, pathfs.FILELINK_COMPONENTS)
+        if not quick:                                      # depth 2 exhaustive + a seeded sample of depth 3
+            fl_strings = fl_strings + ctx.rng.sample(pathfs.grammar(3, pathfs.FILELINK_COMPONENTS), 1200)
+        staged('corr_filelink', lambda: corr_paths(ctx, fl_strings, arrangement="filelink"))
         staged('corr_history', lambda: corr_history(ctx))
+        staged('corr_sessions', lambda: corr_sessions(ctx))
         staged('corr_s3_keys', lambda: corr_s3_keys(ctx))
         staged('corr_entries', lambda: corr_entries(ctx, obs_ws, obs, 3))
         staged('corr_random', lambda: corr_random_trees(ctx, 60 if quick else 400, 25))
@@ -1256,7 +1521,8 @@ def replay(ctx, payload) -> int:
         return 1 if problems else 0
     if case.get("history"):
         h = case["history"]
-        wsp = pathaudit.history_workspace(os.path.join(ctx.scratch, "ws-replay-history"), with_table=(h["handle"] == "table"))
+        make_ws = pathaudit.session_workspace if h.get("arrangement") == "filelink_spec" else pathaudit.history_workspace
+        wsp = make_ws(os.path.join(ctx.scratch, "ws-replay-history"), with_table=(h["handle"] == "table"))
         outs, problems = pathaudit.run_history(wsp, pathaudit.Judge(wsp), Audit.get(), h["handle"], h["base"], h["steps"])
         print(f"replay: history on one {h['handle']} handle (root {h['base']}): {h['steps']} -> outcomes {outs}")
         for pr in problems:
